@@ -48,7 +48,7 @@ Definition group (letter : ascii) (l : list ascii) : option (list ascii) * list 
   end.
 
 Definition hour_ns : Z := 3600000000000.
-(* add one parsed group: ParseInt fails on no digits or overflow *)
+(* add one parsed group: ParseInt fails on no digits or overflow; the running sum must fit an int64 *)
 Definition add_group (g : option (list ascii)) (unit_ns : Z) (acc : option Z) : option Z :=
   match acc, g with
   | None, _ => None
@@ -57,7 +57,8 @@ Definition add_group (g : option (list ascii)) (unit_ns : Z) (acc : option Z) : 
       match d with
       | [] => None
       | _ => let v := digits_val d in
-             if int64_ok v then Some (wrap64 (a + v * unit_ns)) else None
+             (* fix F23: a sum beyond the range of time.Duration is rejected (it used to wrap around: wrap64 (a + v * unit_ns)) *)
+             if int64_ok v then (if a + v * unit_ns <? two63 then Some (a + v * unit_ns) else None) else None
       end
   end.
 
